@@ -257,6 +257,7 @@ func buildPacketScenario(p picker, o Opts, k pktKnobs) *pktScenario {
 		np.maxDelay = 2
 	}
 	np.variety = true
+	np.burst = p.pct("burst", 25)
 	single := len(s.Ports) <= 100
 	if k.latePct > 0 && single && p.bool("late") {
 		np.latePct = k.latePct
